@@ -158,7 +158,7 @@ func TestC10(t *testing.T) {
 	evid.Main(t, "C10", func(rec *evid.Rec) {
 		rec.Rule("model-based histories: start = suite/bench/synthetic/motif root (FEN-loaded, hash history reset, en-passant field engine-normalised), then up to 200 generated steps from the actions {reverse my move of two plies ago, replay the last 4-ply cycle, irreversible move, double push/castle/promotion, king/rook/knight shuffle, random}; after EVERY move Threefold() is compared with min(3, occurrences of the reference identity (placement, side, rights, en-passant capturability) in the history list). UCI leg: the same games through `position fen F moves ...` + `go depth 2` (bestmove 0000 iff third occurrence / no legal move / clock>=100). Separate class: start FENs carrying a raw, uncapturable en-passant target (known finding). Non-trivial = step with true count >= 2, or an earlier position with the same placement but different rights / en-passant capturability; distinct by (start, move prefix)")
 		rec.Assume("reference identity of positions from verif/refchess (Key: placement, side, rights, capturable en-passant)")
-		rec.Rapid(t, "history", evid.Pick(3000, 60000), func(t *rapid.T) {
+		rec.Rapid(t, "history", evid.Pick(20000, 300000), func(t *rapid.T) {
 			root, label := gen.Root(t)
 			if gen.Chance(t, 1, 3, "startpos") {
 				root, label = refchess.MustFEN(gen.StartFEN), "startpos"
@@ -178,7 +178,7 @@ func TestC10(t *testing.T) {
 				t.Fatalf("%v", err)
 			}
 		})
-		rec.Rapid(t, "raw_ep_start", evid.Pick(1500, 20000), func(t *rapid.T) {
+		rec.Rapid(t, "raw_ep_start", evid.Pick(6000, 60000), func(t *rapid.T) {
 			// start FEN with a raw en-passant target (after a double push), capturable or not
 			var root refchess.Pos
 			if p, m, _, ok := gen.EPMotif(t); ok && gen.Chance(t, 2, 3, "motif") {
@@ -219,7 +219,7 @@ func TestC10(t *testing.T) {
 				t.Fatalf("%v", err)
 			}
 		})
-		rec.Rapid(t, "uci", evid.Pick(1200, 20000), func(t *rapid.T) {
+		rec.Rapid(t, "uci", evid.Pick(5000, 50000), func(t *rapid.T) {
 			root, _ := gen.Root(t)
 			if gen.Chance(t, 1, 2, "startpos") {
 				root = refchess.MustFEN(gen.StartFEN)
